@@ -193,7 +193,7 @@ def build_curve(case):
     return Curve(U, P, w)
 
 
-HISTORY_MODES = (None, None, None, "points-only", "weights-then-points", "points-then-weights")
+HISTORY_MODES = (None, None, None, "points-only", "weights-then-points", "points-then-weights", "knots-in-place")
 
 
 def default_use(curve):
@@ -215,6 +215,25 @@ def build_curve_history(case, mode, use=default_use):
     if not mode:
         return build_curve(case)
     num = case.get("num", "frac")
+    if mode == "knots-in-place":
+        # the same control points on another parametrisation, used, then the live knot vector object mapped in
+        # place (scale, then shift) onto the knots of the case: nothing remembered about the old parameter may survive
+        if num != "frac":
+            return build_curve(case)
+        U = [F(u) for u in case["U"]]
+        a, s = U[0] + 1, F(2)
+        curve = Curve([(u - a) / s for u in U], conv_points(case["P"], num, case.get("ptform")),
+                      None if case.get("w") is None else [conv_val(x, num) for x in case["w"]])
+        use(curve)
+        try:
+            curve.knotvector.scale(s).shift(a)
+        except Exception as exc:
+            if not from_library(exc):
+                raise
+            return build_curve(case)
+        if [frac(u) for u in curve.knotvector] != U:
+            return build_curve(case)  # (the property object is not live: nothing to test on this route)
+        return curve
     U = [conv_knot(u, num) for u in case["U"]]
     P = conv_points(case["P"], num, case.get("ptform"))
     w = None if case.get("w") is None else [conv_val(x, num) for x in case["w"]]
